@@ -276,10 +276,75 @@ def run(ctx):
                 n += 1
     report(ctx, allbad, ())
     return_type_stream(ctx)
+    alter_stream(ctx)
     if not ok and not any(f.kind == "input" for f in ctx.failures):
         names = [o[0] for o in ctx.obligations if not o[1]]
         ctx.fail("obligation", "Lean obligations no longer check: " + "; ".join(names)[:300] + " :: " + lr.errors[-500:],
                  {"theorem": names, "lean_errors": lr.errors[-3000:]}, has_input=False)
+
+
+def alter_stream(ctx):
+    """the clause 'after a successful change of ... metadata (gd_alter_*), reads reflect exactly that change': every derived field
+    is read (so that its inputs are resolved and cached on the handle), then re-specified with gd_alter_spec — both inputs at
+    once, one input, or only parameters — and read again on the same handle; the values must be those a fresh handle reads
+    after the metadata have been flushed."""
+    from checks.c10 import hx
+    harness = C.build_harness("gdh", ["gdh.c"])
+    rng = ctx.rng
+    chunks = []
+    RAWS = ["a", "b", "c", "d"]
+    for i in range(40 if ctx.thorough() else 12):
+        fmt = ["/VERSION 10", "/ENDIAN little", "/ENCODING none", "a RAW UINT8 1", "b RAW UINT8 1", "c RAW UINT8 1", "d RAW UINT8 1",
+               "ca CARRAY FLOAT64 1.5 2.5 3.5 4.5 5.5 6.5", "cb CARRAY FLOAT64 10 20 30 40 50 60", "sa SARRAY p q r s t u", "sb SARRAY P Q R S T U"]
+        def spec(nm, kind):
+            x, y = rng.sample(RAWS, 2)
+            return {"mu": "%s MULTIPLY %s %s" % (nm, x, y), "dv": "%s DIVIDE %s %s" % (nm, x, y),
+                    "ind": "%s INDIR %s %s" % (nm, x, rng.choice(["ca", "cb"])), "wi": "%s WINDOW %s %s GE %d" % (nm, x, y, rng.randint(1, 4)),
+                    "mp": "%s MPLEX %s %s %d" % (nm, x, y, rng.randint(1, 4)), "l2": "%s LINCOM 2 %s %d 0 %s %d 1" % (nm, x, rng.randint(1, 3), y, rng.randint(1, 3)),
+                    "ph": "%s PHASE %s %d" % (nm, x, rng.randint(0, 2)), "bt": "%s BIT %s %d 3" % (nm, x, rng.randint(0, 2)),
+                    "rc": "%s RECIP %s %d" % (nm, x, rng.randint(1, 4)), "po": "%s POLYNOM %s %d %d" % (nm, x, rng.randint(0, 3), rng.randint(1, 3))}[kind]
+        kinds = ["mu", "dv", "ind", "wi", "mp", "l2", "ph", "bt", "rc", "po"]
+        names = []
+        for k in kinds:
+            for j in range(2):
+                nm = "%s%d" % (k, j)
+                fmt.append(spec(nm, k))
+                names.append((nm, k))
+        L = ["reset", "file format " + hx("\n".join(fmt) + "\n")]
+        for r in RAWS:
+            L.append("file %s %s" % (r, bytes(rng.randint(0, 5) for _ in range(24)).hex()))
+        L.append("open rdwr")
+        warm = [nm for nm, k in names if rng.random() < 0.7]          # fields whose inputs are already resolved when they are altered
+        L += ["get %s 0 0 0 100 f64" % nm for nm in warm]
+        altered = []
+        for nm, k in names:
+            if rng.random() < 0.7:
+                L.append("alterspec 0 " + hx(spec(nm, k)))
+                altered.append(nm)
+        mark1 = len(L)
+        L += ["get %s 0 0 0 100 f64" % nm for nm, k in names]
+        L += ["metaflush", "close", "open rdonly"]
+        mark2 = len(L)
+        L += ["get %s 0 0 0 100 f64" % nm for nm, k in names]
+        chunks.append((L, names, mark1, mark2, set(warm), set(altered)))
+    res = streams.run_chunks(harness, [c[0] for c in chunks], "c02alt")
+    nalt = 0
+    for ci, (lines, out, crashed, err) in enumerate(res):
+        L, names, mark1, mark2, warm, altered = chunks[ci]
+        if crashed or len(out) < len(lines):
+            ctx.fail("input", "library aborted in the alter stream: %s" % err[-300:], {"script": lines[:len(out) + 1], "stderr": err[-2500:]}, sig={"class": "crash", "enc": "none"})
+            continue
+        for j, (nm, k) in enumerate(names):
+            a, b = streams.strip_rl(out[mark1 + j])[0], streams.strip_rl(out[mark2 + j])[0]
+            ctx.evaluations += 1
+            nalt += 1
+            ctx.distinct.add(("alter", k, nm in warm, nm in altered))
+            if a != b:
+                ctx.fail("input", "after gd_alter_spec%s the handle reads %s as '%s', a fresh handle on the flushed metadata reads '%s' (%s read before the change)" % (
+                    " of it" if nm in altered else " of other fields", nm, a[:90], b[:90], "was" if nm in warm else "not"),
+                    {"script": lines[:mark2 + j + 1], "observed": a, "expected": b}, sig={"class": "alter-not-reflected", "enc": "none"})
+                break
+    ctx.coverage["alter_stream"] = "%d field comparisons: 20 derived fields of 10 kinds per dirfile, read, re-specified with gd_alter_spec (new inputs and parameters), read on the same handle vs a fresh handle after gd_metaflush" % nalt
 
 
 def return_type_stream(ctx):
